@@ -172,7 +172,7 @@ func genValue(t *rapid.T, s *schema) model.Bytes {
 	n := 0
 	switch {
 	case s.extreme && !s.noXXL && cls < 6:
-		n = rapid.SampledFrom([]int{65535, 65536, 70000, 131072, 200000}).Draw(t, "vallenXXL")
+		n = rapid.SampledFrom([]int{65535, 65536, 70000, 131072}).Draw(t, "vallenXXL")
 	case cls < 90:
 		n = rapid.SampledFrom(valLens).Draw(t, "vallen")
 	case cls < 98:
@@ -233,6 +233,9 @@ func genField(t *rapid.T, s *schema) model.Field {
 	nterms := rapid.IntRange(0, 4).Draw(t, "nfterms")
 	for i := 0; i < nterms; i++ {
 		term := rapid.SampledFrom(s.terms).Draw(t, "term")
+		if s.noXXL && len(term) > 2000 {
+			term = "xl" // kilobyte terms only in explicit documents, not in blocks of thousands
+		}
 		if s.dv[f.Name] && strings.Contains(term, "\xff") {
 			term = "nff"
 		}
